@@ -495,13 +495,25 @@ func (g *gen) systemMetadata() entry {
 	key := g.pick(g.u.sysKeys)
 	val := g.pick([]string{"true", "v"})
 	if key == structs.SystemMetadataIntentionFormatKey {
-		val = g.pick([]string{structs.SystemMetadataIntentionFormatConfigValue, structs.SystemMetadataIntentionFormatLegacyValue})
+		// written only by the leader's one-way intention migration: decided once at the start of a history
+		// (intentionFormat), never rewritten or deleted afterwards
+		key = "k1"
 	}
 	req := structs.SystemMetadataRequest{Datacenter: "dc1", Op: structs.SystemMetadataUpsert, Entry: &structs.SystemMetadataEntry{Key: key, Value: val}}
 	if r.Chance(20) {
 		req.Op = structs.SystemMetadataDelete
 	}
 	return entry{data: enc(structs.SystemMetadataRequestType, &req), kind: "system-metadata", desc: fmt.Sprintf("sysmeta %s %s=%s", req.Op, key, val)}
+}
+
+func (g *gen) intentionFormat() entry {
+	val := structs.SystemMetadataIntentionFormatConfigValue
+	if g.r.Chance(25) {
+		val = structs.SystemMetadataIntentionFormatLegacyValue
+	}
+	req := structs.SystemMetadataRequest{Datacenter: "dc1", Op: structs.SystemMetadataUpsert,
+		Entry: &structs.SystemMetadataEntry{Key: structs.SystemMetadataIntentionFormatKey, Value: val}}
+	return entry{data: enc(structs.SystemMetadataRequestType, &req), kind: "system-metadata", desc: "sysmeta upsert intention-format=" + val}
 }
 
 func (g *gen) vipFlag() entry {
